@@ -8,6 +8,7 @@
  "replace_calls": {"rawnext": "stub_rawnext", "expand": "stub_expand", "stringize": "rec_stringize"},
  "variants": {"p0": ["-DV_NP=0", "-DV_VAR=0", "-DV_STR=0"], "p1": ["-DV_NP=1", "-DV_VAR=0", "-DV_STR=0"], "p2": ["-DV_NP=2", "-DV_VAR=0", "-DV_STR=0"],
               "p2var": ["-DV_NP=2", "-DV_VAR=1", "-DV_STR=0"], "p1var": ["-DV_NP=1", "-DV_VAR=1", "-DV_STR=0"], "p2str": ["-DV_NP=2", "-DV_VAR=0", "-DV_STR=1"]},
+ "tiers": {"thorough": {"cflags": ["-DNS=8"], "unwind": 11, "timeout": 1800, "bound": "as quick with up to 8 tokens"}},
  "kind": "bounded",
  "bound": "the tokens after the '(' of one invocation: up to 6 tokens drawn from {number, ',', '(', ')'} then end of file; macros with 0, 1 or 2 parameters, the last optionally `...`, the first optionally stringized; no macro invocation inside the arguments (expand() answers `not replaced`, so the expansion depth is constant)",
  "timeout": 600, "replay": false,
@@ -21,7 +22,9 @@
 struct token tok;
 extern int g_no_error;
 
+#ifndef NS
 #define NS 6
+#endif
 static struct token script[NS + 2];
 static unsigned s_n, s_pos;
 struct token *stub_rawnext(void) { __CPROVER_assert(s_pos <= s_n, "nothing is read after the end of file"); return &script[s_pos++]; }
@@ -65,6 +68,9 @@ harness(void)
 
 	__CPROVER_assume(in_n <= NS);
 	k[0] = in_k0; k[1] = in_k1; k[2] = in_k2; k[3] = in_k3; k[4] = in_k4; k[5] = in_k5;
+#if NS > 6
+	{ IN(int, in_k6); IN(int, in_k7); k[6] = in_k6; k[7] = in_k7; }
+#endif
 	for (i = 0; i < NS; i++) {
 		__CPROVER_assume(k[i] == TNUMBER || k[i] == TCOMMA || k[i] == TLPAREN || k[i] == TRPAREN);
 		script[i].kind = i < in_n ? k[i] : TEOF; script[i].loc.col = i; script[i].lit = 0; script[i].space = false; script[i].hide = false;
@@ -119,6 +125,6 @@ harness(void)
 	__CPROVER_assert(g_nstr == 0, "no argument is spelled when no parameter is stringized");
 #endif
 #ifdef VERIF_CANARY
-	__CPROVER_assert(!(end == (np ? 5 : 0)), "CANARY");
+	__CPROVER_assert(!(end == (np ? NS - 1 : 0)), "CANARY");
 #endif
 }
